@@ -16,7 +16,8 @@ Requests (`<v>` = two digits: `emptyAnonUnwrap`, `tupleNamesFixed` — the sourc
   bottom-up over the derivation tree `(n x<nt> <alt> kids…)` / `(t x<text>)`; answer = rendered value.
 * `look <prefix> <lookaround indices> <inline kind sexp>` — start/end sources of every inlined symbol of
   an inline action function and the value source of every `@L`/`@R` in it.
-* `lookeval <tree>` — the C06 rule evaluated on a derivation with token spans (see `evalHost`).
+* `lookeval <tree>` — the C06 rule evaluated on a derivation with token spans; `lookmodel <tree>` — the
+  composed generated action functions (model) on the same derivation (see `evalHost`).
 -/
 open LalrpopModel LalrpopModel.Lower LalrpopModel.Proto
 
@@ -416,98 +417,140 @@ def lookAnswer (looks : List (Nat × Look)) (symbols : List (InlinedSymbol Strin
       | none => base
   "|".intercalate items
 
-/-! ### `@L`/`@R`: the rule evaluated on a derivation -/
+/-! ### `@L`/`@R` on a derivation: the C06 rule, and the composed generated functions
+
+Trees: `(u 0 - x<label> kids…)` a production of a non-inlined nonterminal, `(u 1 <rank> x<label> kids…)`
+of an `#[inline]` one, `(o <rank> kid?)` / `(s <rank> kids…)` the inlined `X?` / `X*`, `(t x<text> s e)` a
+token with its span, `(L <rank>)` / `(R <rank>)`. `rank` = position of the inlined nonterminal in
+`inline_order` (the order in which the inliner processes them).
+
+* `lookeval` evaluates the **rule** of property C06: a lookaround sees the nearest flat argument
+  of its (inlined) alternative after/before it, inlined symbols without symbols are skipped;
+* `lookmodel` evaluates the **model of the generated code**: one `emit_inline_action_code`
+  function per inlining step (innermost = inlined first); every function computes
+  `tempSpan` (Model: `startSrc`/`endSrc`) over *its* arguments, and an argument that stands for a
+  nonterminal inlined by an outer function is that function's temporary `(start, value, end)`. -/
 
 inductive LTree where
-  | user (inl : Bool) (label : String) (kids : List LTree)
-  | opt (kids : List LTree)        -- `X?`: zero or one kid
-  | star (kids : List LTree)       -- `X*` / `X+`
+  | user (inl : Bool) (rank : Nat) (label : String) (kids : List LTree)
+  | opt (rank : Nat) (kids : List LTree)        -- `X?`: zero or one kid
+  | star (rank : Nat) (kids : List LTree)       -- `X*` (inlined; a non-empty one wraps the host `X+`)
   | tok (text : String) (s e : Nat)
-  | look (k : Look)
+  | look (k : Look) (rank : Nat)
   deriving Inhabited
 
 partial def parseLTree (s : Sexp) : Option LTree :=
   match s with
-  | .list (.atom "u" :: .atom i :: .atom l :: kids) => do
-    pure (.user (i == "1") (← decStr l) (← kids.mapM parseLTree))
-  | .list (.atom "o" :: kids) => do pure (.opt (← kids.mapM parseLTree))
-  | .list (.atom "s" :: kids) => do pure (.star (← kids.mapM parseLTree))
+  | .list (.atom "u" :: .atom i :: .atom r :: .atom l :: kids) => do
+    pure (.user (i == "1") (r.toNat?.getD 0) (← decStr l) (← kids.mapM parseLTree))
+  | .list (.atom "o" :: .atom r :: kids) => do pure (.opt (← r.toNat?) (← kids.mapM parseLTree))
+  | .list (.atom "s" :: .atom r :: kids) => do pure (.star (← r.toNat?) (← kids.mapM parseLTree))
   | .list [.atom "t", .atom txt, .atom a, .atom b] => do pure (.tok (← decStr txt) (← a.toNat?) (← b.toNat?))
-  | .list [.atom "L"] => some (.look .ahead)
-  | .list [.atom "R"] => some (.look .behind)
+  | .list [.atom "L", .atom r] => do pure (.look .ahead (← r.toNat?))
+  | .list [.atom "R", .atom r] => do pure (.look .behind (← r.toNat?))
   | _ => none
 
 partial def leaves : LTree → List (Nat × Nat)
   | .tok _ s e => [(s, e)]
-  | .user _ _ ks | .opt ks | .star ks => ks.flatMap leaves
-  | .look _ => []
+  | .user _ _ _ ks | .opt _ ks | .star _ ks => ks.flatMap leaves
+  | .look _ _ => []
 
-/-- a part of an action function's symbol list after inlining -/
+/-- a symbol of a production as the inliner sees it -/
 inductive Part where
   | arg (i : Nat)                                   -- flat argument `i` of the host
-  | look (k : Look)
-  | inl (label : String) (parts : List Part) (first len : Nat)   -- inlined nonterminal: its slice
-  | const (s : String)       -- inlined `X?` / `X*` that derived nothing: `None` / `vec![]`
+  | look (k : Look) (rank : Nat)
+  | const (s : String) (rank : Nat)                 -- inlined `X?` / `X*` that derived nothing
+  | wrap (rank : Nat) (i : Nat)                     -- inlined `X?` / `X*` around its one argument
+  | inl (rank : Nat) (label : String) (parts : List Part) (first len : Nat)   -- inlined nonterminal: its slice
   deriving Inhabited
 
+def Part.rank? : Part → Option Nat
+  | .arg _ => none
+  | .look _ r | .const _ r | .wrap r _ | .inl r _ _ _ _ => some r
+
+abbrev Ent := (Nat × Nat) × String
+
 structure HostAcc where
-  args : Array ((Nat × Nat) × String) := #[]     -- spans and rendered values of the flat arguments
-  pos : Nat                                       -- index of the next leaf
+  args : Array Ent := #[]     -- spans and rendered values of the flat arguments
+  pos : Nat                   -- index of the next leaf
+
+/-- an argument group of one generated function: the entries that belong to one symbol -/
+structure Grp where
+  part : Part
+  ents : List Ent
+  done : Bool
+
+def insertDesc (r : Nat) : List Nat → List Nat
+  | [] => [r]
+  | x :: xs => if r > x then r :: x :: xs else if r == x then x :: xs else x :: insertDesc r xs
 
 mutual
 /-- a non-inlined node: returns its span, its rendered value and the leaf position after it.
-    `toks` = all token spans of the input. -/
-partial def evalHost (toks : Array (Nat × Nat)) (pos : Nat) : LTree → (Nat × Nat) × String × Nat
+    `toks` = all token spans of the input; `model` selects `lookmodel` over `lookeval`. -/
+partial def evalHost (model : Bool) (toks : Array (Nat × Nat)) (pos : Nat) : LTree → (Nat × Nat) × String × Nat
   | .tok t s e => ((s, e), t, pos + 1)
-  | .look _ => ((0, 0), "<look outside a production>", pos)
-  | .opt ks =>
-    let (acc, vals) := evalKids toks ks ({ pos := pos } : HostAcc)
+  | .look _ _ => ((0, 0), "<look outside a production>", pos)
+  | .opt _ ks =>
+    let (acc, vals) := evalKids model toks ks ({ pos := pos } : HostAcc)
     (hostSpan toks pos acc, vals.head?.getD "~", acc.pos)
-  | .star ks =>
-    let (acc, vals) := evalKids toks ks ({ pos := pos } : HostAcc)
+  | .star _ ks =>
+    -- the host `X+` of a repetition
+    let (acc, vals) := evalKids model toks ks ({ pos := pos } : HostAcc)
     (hostSpan toks pos acc, "[" ++ " ".intercalate vals ++ "]", acc.pos)
-  | .user _ label ks =>
-    let (parts, acc) := collect toks ks ({ pos := pos } : HostAcc)
+  | .user _ _ label ks =>
+    let (parts, acc) := collect model toks ks ({ pos := pos } : HostAcc)
     let span := hostSpan toks pos acc
     -- an action function without arguments receives the empty position twice
     let p := span.1
-    let env : Env Nat := { args := acc.args.toList.map (·.1), lookbehind := p, lookahead := p }
-    let v := render label parts env (acc.args.toList.map (·.2)) 0
+    let ents := acc.args.toList
+    let v :=
+      if model then renderNest label parts ents 0 p p
+      else
+        let env : Env Nat := { args := ents.map (·.1), lookbehind := p, lookahead := p }
+        render label parts env (ents.map (·.2)) 0
     (span, v, acc.pos)
 
-/-- the children of a macro-generated nonterminal (`X?`, `X*`, `X+`), left to right -/
-partial def evalKids (toks : Array (Nat × Nat)) : List LTree → HostAcc → HostAcc × List String
+/-- the elements of a repetition / the element of an option, left to right -/
+partial def evalKids (model : Bool) (toks : Array (Nat × Nat)) : List LTree → HostAcc → HostAcc × List String
   | [], acc => (acc, [])
   | k :: rest, acc =>
-    let (sp, v, p) := evalHost toks acc.pos k
-    let (acc', vs) := evalKids toks rest { acc with args := acc.args.push (sp, v), pos := p }
+    let (sp, v, p) := evalHost model toks acc.pos k
+    let (acc', vs) := evalKids model toks rest { acc with args := acc.args.push (sp, v), pos := p }
     (acc', v :: vs)
 
-/-- the symbols of a production after inlining: children that are inlined nonterminals are
-    spliced in -/
-partial def collect (toks : Array (Nat × Nat)) : List LTree → HostAcc → List Part × HostAcc
+/-- the symbols of a production: children that are inlined nonterminals are spliced in -/
+partial def collect (model : Bool) (toks : Array (Nat × Nat)) : List LTree → HostAcc → List Part × HostAcc
   | [], acc => ([], acc)
-  | .look k :: rest, acc =>
-    let (ps, acc') := collect toks rest acc
-    (.look k :: ps, acc')
+  | .look k r :: rest, acc =>
+    let (ps, acc') := collect model toks rest acc
+    (.look k r :: ps, acc')
   -- `X?` and `X*` are `#[inline]` nonterminals (`X+` is not): an empty one leaves no argument,
   -- a present `X?` leaves `X`, a non-empty `X*` leaves the single argument `X+`
-  | .opt [] :: rest, acc =>
-    let (ps, acc') := collect toks rest acc
-    (.const "~" :: ps, acc')
-  | .star [] :: rest, acc =>
-    let (ps, acc') := collect toks rest acc
-    (.const "[]" :: ps, acc')
-  | .opt [k] :: rest, acc => collect toks (k :: rest) acc
-  | .user true label ks :: rest, acc =>
-    let first := acc.args.size
-    let (inner, acc1) := collect toks ks acc
-    let (ps, acc2) := collect toks rest acc1
-    (.inl label inner first (acc1.args.size - first) :: ps, acc2)
-  | k :: rest, acc =>
-    let (sp, v, p) := evalHost toks acc.pos k
+  | .opt r [] :: rest, acc =>
+    let (ps, acc') := collect model toks rest acc
+    (.const "~" r :: ps, acc')
+  | .star r [] :: rest, acc =>
+    let (ps, acc') := collect model toks rest acc
+    (.const "[]" r :: ps, acc')
+  | .opt r [k] :: rest, acc =>
+    let (sp, v, p) := evalHost model toks acc.pos k
     let i := acc.args.size
-    let (ps, acc') := collect toks rest { acc with args := acc.args.push (sp, v), pos := p }
+    let (ps, acc') := collect model toks rest { acc with args := acc.args.push (sp, v), pos := p }
+    (.wrap r i :: ps, acc')
+  | .star r ks :: rest, acc =>
+    let (sp, v, p) := evalHost model toks acc.pos (.star r ks)
+    let i := acc.args.size
+    let (ps, acc') := collect model toks rest { acc with args := acc.args.push (sp, v), pos := p }
+    (.wrap r i :: ps, acc')
+  | .user true r label ks :: rest, acc =>
+    let first := acc.args.size
+    let (inner, acc1) := collect model toks ks acc
+    let (ps, acc2) := collect model toks rest acc1
+    (.inl r label inner first (acc1.args.size - first) :: ps, acc2)
+  | k :: rest, acc =>
+    let (sp, v, p) := evalHost model toks acc.pos k
+    let i := acc.args.size
+    let (ps, acc') := collect model toks rest { acc with args := acc.args.push (sp, v), pos := p }
     (.arg i :: ps, acc')
 
 /-- span of a production: first/last argument, or the empty position -/
@@ -521,25 +564,25 @@ partial def hostSpan (toks : Array (Nat × Nat)) (pos : Nat) (acc : HostAcc) : N
       | none => if pos > 0 then (toks[pos - 1]!).2 else 0
     (p, p)
 
-/-- the action of `label` over `parts`, whose flat arguments are `env.args` (values `vals`);
+/-- RULE: the action of `label` over `parts`, whose flat arguments are `env.args` (values `vals`);
     `base` = index of the first flat argument of this function within the host's numbering -/
 partial def render (label : String) (parts : List Part) (env : Env Nat) (vals : List String) (base : Nat) : String :=
   "(" ++ label ++ String.join ((renderParts parts env vals base 0).map (" " ++ ·)) ++ ")"
 
-/-- values of the parts, left to right; `before` = number of flat arguments of this function that
-    precede the current part -/
+/-- RULE: values of the parts, left to right; `before` = number of flat arguments of this
+    alternative that precede the current part -/
 partial def renderParts (parts : List Part) (env : Env Nat) (vals : List String) (base before : Nat) : List String :=
   match parts with
   | [] => []
-  | .arg i :: rest => (vals[i - base]?.getD "<arg?>") :: renderParts rest env vals base (before + 1)
-  | .look k :: rest =>
+  | .arg i :: rest | .wrap _ i :: rest =>
+    (vals[i - base]?.getD "<arg?>") :: renderParts rest env vals base (before + 1)
+  | .look k _ :: rest =>
     let v := declLook k (env.args.take before) (env.args.drop before) env.lookbehind env.lookahead
     toString v :: renderParts rest env vals base before
-  | .const s :: rest => s :: renderParts rest env vals base before
-  | .inl label inner first len :: rest =>
+  | .const s _ :: rest => s :: renderParts rest env vals base before
+  | .inl _ label inner first len :: rest =>
     let sub : Env Nat :=
       if len == 0 then
-        -- called as `__actionN(&__startK, &__endK)`
         { args := []
           lookbehind := declR (env.args.take before) (env.args.drop before) env.lookbehind
           lookahead := declL (env.args.take before) (env.args.drop before) env.lookahead }
@@ -547,6 +590,48 @@ partial def renderParts (parts : List Part) (env : Env Nat) (vals : List String)
         { args := (env.args.drop before).take len, lookbehind := 0, lookahead := 0 }
     let subVals := (vals.drop before).take len
     render label inner sub subVals first :: renderParts rest env vals base (before + len)
+
+/-- MODEL: the nest of generated functions for one production. `ents` = its flat arguments,
+    `(lb, la)` = the two location parameters (used by a function without arguments only). -/
+partial def renderNest (label : String) (parts : List Part) (ents : List Ent) (base lb la : Nat) : String :=
+  let groups0 : List Grp := parts.map fun p =>
+    match p with
+    | .arg i => { part := p, ents := (ents[i - base]?).toList, done := true }
+    | .wrap _ i => { part := p, ents := (ents[i - base]?).toList, done := false }
+    | .look _ _ | .const _ _ => { part := p, ents := [], done := false }
+    | .inl _ _ _ first len => { part := p, ents := (ents.drop (first - base)).take len, done := false }
+  -- the function created last (highest rank) is the outermost one
+  let ranks := (parts.filterMap Part.rank?).foldl (fun acc r => insertDesc r acc) []
+  let groups := ranks.foldl (fun gs r => nestLevel r gs lb la) groups0
+  "(" ++ label ++ String.join (groups.map fun g => " " ++ (g.ents.head?.map (·.2)).getD "<?>") ++ ")"
+
+/-- MODEL: the generated function of one inlining step: spans of all its inlined symbols are
+    computed over its own argument list first, then every inlined action runs and is replaced
+    by the temporary `(start, value, end)` handed to the next inner function -/
+partial def nestLevel (r : Nat) (groups : List Grp) (lb la : Nat) : List Grp :=
+  let flat := groups.flatMap (·.ents)
+  let env : Env Nat := { args := flat.map (·.1), lookbehind := lb, lookahead := la }
+  let numFlat := flat.length
+  let rec go (gs : List Grp) (before : Nat) : List Grp :=
+    match gs with
+    | [] => []
+    | g :: rest =>
+      let len := g.ents.length
+      let g' :=
+        if !g.done && g.part.rank? == some r then
+          match tempSpan env numFlat before len with
+          | none => { g with ents := [((0, 0), "<no such argument>")], done := true }
+          | some (s, e) =>
+            let v := match g.part with
+              | .look k _ => toString (lookaroundAction k s e)
+              | .const c _ => c
+              | .wrap _ _ => (g.ents.head?.map (·.2)).getD "<?>"
+              | .inl _ label inner first _ => renderNest label inner g.ents first s e
+              | .arg _ => "<?>"
+            { g with ents := [((s, e), v)], done := true }
+        else g
+      g' :: go rest (before + len)
+  go groups 0
 end
 
 /-! ### the line protocol -/
@@ -632,7 +717,14 @@ def step (st : VState) (line : String) : VState × String :=
     match Sexp.parse rest >>= parseLTree with
     | some t =>
       let toks := (leaves t).toArray
-      let (_, v, _) := evalHost toks 0 t
+      let (_, v, _) := evalHost false toks 0 t
+      (st, v)
+    | none => (st, "bad-op")
+  | ["lookmodel"] =>
+    match Sexp.parse rest >>= parseLTree with
+    | some t =>
+      let toks := (leaves t).toArray
+      let (_, v, _) := evalHost true toks 0 t
       (st, v)
     | none => (st, "bad-op")
   | _ => (st, "bad-op")
